@@ -3,13 +3,15 @@
    kernel oracles incl. fork/pipe/kill failures and EPERM) never crashes - none of the
    _assertInState assertions can fire and every pass runs to completion - for every
    configuration, script and oracle; the loop ends only through ExitNow after a shutdown or
-   restart request.  Output parsing (capture scanner, listener protocol) has its own
+   restart request.  After any history the reaper still waits for every dead child (first 100
+   per pass, oldest first), EXITED processes are restarted iff their policy says so and live
+   processes are stoppable (Life/Service.v).  Output parsing (capture scanner, listener protocol) has its own
    fuel/no-crash theorems under C08/C10.  Exceptions from Python sites that are not modelled
    are reached only by the correspondence (any exception escaping the real main loop in the
    harness is a violation). *)
 From Coq Require Import ZArith List Bool.
 Import ListNotations.
-Require Import SV.Life.Model SV.Life.Inv SV.Life.InvRun SV.Life.Shutdown.
+Require Import SV.Life.Model SV.Life.Inv SV.Life.InvRun SV.Life.Shutdown SV.Life.Service.
 Open Scope Z_scope.
 
 Theorem c06_model_never_crashes :
@@ -34,6 +36,76 @@ Theorem c06_exit_only_on_request :
     let w := Model.run U pconfs gconfs ops in exited w = true -> mood w < 1.
 Proof. exact exit_only_on_request. Qed.
 Print Assumptions c06_exit_only_on_request.
+
+(* "After any such disturbance every other process is still monitored": at the reap point of every
+   pass of every run the reaper waits for the first 100 dead children, oldest first, leaves live
+   children alone, and the pass completes (pre_reap; reap_all; post_reap is the pass) *)
+Theorem c06_reaper_services_every_pass :
+  forall U pconfs gconfs ops o,
+    let w := Model.run U pconfs gconfs ops in
+    exists w1 w2 w3,
+      pre_reap U pconfs gconfs o w = (Some tt, w1) /\ Model.reap_all U pconfs w1 = (Some tt, w2) /\
+      post_reap U pconfs gconfs w2 = (Some tt, w3) /\
+      Model.do_pass U pconfs gconfs o w = (Some tt, w3) /\
+      zombies w2 = skipn 100 (zombies w1) /\ live w2 = live w1 /\
+      waits (out w2) = rev (firstn 100 (zombies w1)) ++ waits (out w1).
+Proof. exact run_reap_point. Qed.
+Print Assumptions c06_reaper_services_every_pass.
+
+(* no death stays unnoticed: with at most 100 dead children at the reap point, no zombie is left
+   after it and every process that still has a pid has a live child *)
+Theorem c06_no_death_unnoticed :
+  forall U pconfs gconfs ops o,
+    let w := Model.run U pconfs gconfs ops in
+    exists w1 w2,
+      pre_reap U pconfs gconfs o w = (Some tt, w1) /\ Model.reap_all U pconfs w1 = (Some tt, w2) /\
+      ((length (zombies w1) <= 100)%nat ->
+         zombies w2 = [] /\
+         waits (out w2) = rev (zombies w1) ++ waits (out w1) /\
+         forall j, pid (procs w2 j) <> 0 -> In (pid (procs w2 j)) (live w2)).
+Proof. exact run_all_noticed. Qed.
+Print Assumptions c06_no_death_unnoticed.
+
+(* "restarted according to its policy", after any history *)
+Theorem c06_still_restarted_by_policy :
+  forall U pconfs gconfs ops i,
+    let w := Model.run U pconfs gconfs ops in
+    sts w i = EXITED -> mood w >= 1 ->
+    exists w', Model.transition U pconfs i w = (Some tt, w') /\
+      ((exists l x e, out w' = l ++ EState i EXITED STARTING x e :: out w) <->
+       should_restart (Model.cf pconfs i) (exitstatus (procs w i)) = true).
+Proof. exact run_exited_restarted_by_policy. Qed.
+Print Assumptions c06_still_restarted_by_policy.
+
+(* "and stoppable", after any history *)
+Theorem c06_still_stoppable :
+  forall U pconfs gconfs ops i,
+    let w := Model.run U pconfs gconfs ops in
+    sts w i = RUNNING \/ sts w i = STARTING ->
+    exists b w', Model.stop U pconfs i w = (Some b, w') /\
+      let pd := pid (procs w i) in
+      let tg := kill_target (Model.cf pconfs i) (sts w i) pd in
+      Z.abs tg = pd /\
+      exists r, (r = 0 \/ r = 1 \/ r = 2) /\ b = (r =? 2) /\
+        out w' = (if r =? 2 then [EState i STOPPING UNKNOWN 0 true] else []) ++
+                 EKill tg (c_stopsignal (Model.cf pconfs i)) r :: EState i (sts w i) STOPPING pd true :: out w /\
+        sts w' i = (if r =? 2 then UNKNOWN else STOPPING).
+Proof. exact run_still_stoppable. Qed.
+Print Assumptions c06_still_stoppable.
+
+(* non-vacuity of the reap point: two children and an unknown child die in one pass; all three are waited for, in order *)
+Example c06_reap_example :
+  let pc := [mkConf 1 0 2 15 999 true ARUnexpected [0] false false CmdOk 0%nat;
+             mkConf 1 0 2 15 999 true ARUnexpected [0] false false CmdOk 0%nat] in
+  let gc := [mkG 999 [0%nat; 1%nat]] in
+  let w := Model.run 2 pc gc [mkPass 10 [] [] []; mkPass 14 [] [] []] in
+  let o := mkPass 18 [AExit 0%nat 1; AUnknown 9; AExit 0%nat 0] [] [] in
+  let w1 := snd (pre_reap 2 pc gc o w) in
+  let w2 := snd (Model.reap_all 2 pc w1) in
+  live w = [1000; 1001] /\ fst (pre_reap 2 pc gc o w) = Some tt /\ fst (Model.reap_all 2 pc w1) = Some tt /\
+  zombies w1 = [(1000, 256); (1002, 9); (1001, 0)] /\ zombies w2 = [] /\
+  waits (out w2) = [(1001, 0); (1002, 9); (1000, 256)].
+Proof. vm_compute. repeat split; reflexivity. Qed.
 
 (* non-vacuity: EPERM on kill, fork failure and an unknown child in one run *)
 Example c06_example :
